@@ -144,6 +144,10 @@ def r1_errors_carry_location(ctx: Ctx) -> None:
             arg = unparse(c.args[0]) if c.args else ""
             ctx.check(arg in (f"str({h.name})", h.name, f"f'{{{h.name}}}'", f"repr({h.name})") or (h.name is not None and f"{{{h.name}}}" in arg and f"{h.name}." not in arg),
                       "assemble_with_emitter:logs-NodeError", f"the logged text is the error's own string (file:line and the quoted source line); it logs `{arg}`")
+        for a_ in [b for b in h.body if isinstance(b, ast.Assign) and h.name and h.name in {x.id for x in ast.walk(b.value) if isinstance(x, ast.Name)}]:
+            n_log += 1
+            ctx.check(unparse(a_.value) in (f"str({h.name})", f"f'{{{h.name}}}'"), "assemble_with_emitter:records-NodeError",
+                      f"the recorded text is the error's own string; it records `{unparse(a_.value)}`")
     if n_log == 0:
         raise AnalysisError("assemble_with_emitter: NodeError handler with a log call not found")
     pos = repo.func("a816.parse.tokens", "Position.__str__")
